@@ -165,8 +165,10 @@ def charge_rules(chk: Check, R1: str, R3: str) -> None:
                 continue
             # which side raises?
             after = [e for e in nxt[1:] if e.kind != 'assume']
+            after = [e for e in after if e.kind != 'return']
             raises_now = p.outcome[0] == 'raise' and all(e.kind in ('call', 'raise') for e in after) and \
-                any(e.kind == 'raise' for e in after) and len(after) <= 2
+                any(e.kind == 'raise' for e in after) and \
+                all(e.kind == 'raise' or e.d.get('ctor') or _builds_message(e) for e in after)
             if raises_now:
                 if form != '0':
                     complaints_r3.append('raises when ops - max >= %s; the budget N is exceeded at the N-th operation '
@@ -175,7 +177,7 @@ def charge_rules(chk: Check, R1: str, R3: str) -> None:
                 if exc_cls is None or exc_cls not in limit_classes:
                     complaints_r3.append('the over-budget branch raises %s, not the ops-limit subclass of ParserError' % (
                         exc_cls or show(p.outcome[1])))
-                extra = [e for e in after if e.kind == 'call' and not e.d.get('ctor')]
+                extra = [e for e in after if e.kind == 'call' and not e.d.get('ctor') and not _builds_message(e)]
                 if extra:
                     complaints_r3.append('the over-budget branch does more than raise: `%s`' % extra[0].text())
             else:
@@ -199,7 +201,7 @@ def charge_rules(chk: Check, R1: str, R3: str) -> None:
     other = []
     for p in rp:
         for e in om.effect_events(p):
-            if om.is_increment(e, st) == 'ok' or e.kind == 'raise' or (e.kind == 'call' and e.d.get('ctor')):
+            if om.is_increment(e, st) == 'ok' or e.kind == 'raise' or (e.kind == 'call' and e.d.get('ctor')) or _builds_message(e):
                 continue
             other.append('`%s`' % e.text())
     if not any(p.normal for p in rp):
@@ -218,6 +220,19 @@ def _raised_class(p):
     if isinstance(t, tuple) and t and t[0] == 'new':
         return t[1]
     return None
+
+
+def _builds_message(e) -> bool:
+    """A call that only builds the text of an error message: str()/repr()/format() or a str method on a constant template."""
+    if e.kind != 'call':
+        return False
+    f = freeze(e.func)
+    if isinstance(f, tuple) and f[:2] == ('ref', 'builtin') and f[2] in ('str', 'repr', 'format'):
+        return True
+    if isinstance(f, tuple) and f and f[0] == 'attr' and f[2] in ('format', 'join', 'format_map') and is_const(f[1]) and isinstance(f[1][1], str):
+        return True
+    # a classmethod/helper of the exception class that builds the instance (inlined: its events are classified one by one)
+    return bool(e.d.get('inlined'))
 
 
 def _is_limit_raise(F, evs, p, limit_classes) -> bool:
@@ -297,7 +312,11 @@ def _r5(chk: Check, R5: str, rootq: str) -> None:
         if '.ply' in fi.module.name:
             continue
         for n in ast.walk(fi.node):
-            if isinstance(n, ast.Attribute) and n.attr == 'ops_evaluated' and isinstance(n.ctx, ast.Store):
+            # the increment (an augmented assignment or `x.ops = x.ops + 1`), not the plain store of a constructor
+            if isinstance(n, ast.AugAssign) and isinstance(n.target, ast.Attribute) and n.target.attr == 'ops_evaluated':
+                holders.append(q)
+            elif isinstance(n, ast.Assign) and any(isinstance(t, ast.Attribute) and t.attr == 'ops_evaluated' for t in n.targets) \
+                    and any(isinstance(x, ast.Attribute) and x.attr == 'ops_evaluated' and isinstance(x.ctx, ast.Load) for x in ast.walk(n.value)):
                 holders.append(q)
     if rootq in holders or not holders:
         charge_q = rootq
@@ -339,6 +358,14 @@ def _r5(chk: Check, R5: str, rootq: str) -> None:
             for x in ast.walk(init):
                 if isinstance(x, ast.Attribute) and isinstance(x.ctx, ast.Store) and isinstance(x.value, ast.Name) and x.value.id == sp:
                     init_stores.add(x)
+    # field names spelled as strings where a class *declares* its fields (__slots__, __match_args__) are declarations
+    declared_names = set()
+    for ci_ in F.classes.values():
+        for st_ in ci_.node.body:
+            if isinstance(st_, (ast.Assign, ast.AnnAssign)):
+                tg = st_.targets if isinstance(st_, ast.Assign) else [st_.target]
+                if any(isinstance(t, ast.Name) and t.id in ('__slots__', '__match_args__') for t in tg) and st_.value is not None:
+                    declared_names.update(ast.walk(st_.value))
     for m in F.modules.values():
         if '.ply' in m.name or '.gen' in m.name:
             continue
@@ -371,7 +398,7 @@ def _r5(chk: Check, R5: str, rootq: str) -> None:
                                     'the budget is read outside the charge function: behaviour can depend on N other '
                                     'than through the threshold (breaks monotonicity in N)' if not inside else
                                     'comparison / message of the charge function')
-            if isinstance(n, ast.Constant) and n.value in ('ops_evaluated', 'max_ops_evaluated'):
+            if isinstance(n, ast.Constant) and n.value in ('ops_evaluated', 'max_ops_evaluated') and n not in declared_names:
                 chk.bad(R5, 'string %r in %s' % (n.value, _encl(F, m, n)), where,
                         'counter accessed reflectively (string constant naming it)')
             if isinstance(n, ast.Call) and isinstance(n.func, ast.Name) and n.func.id in ('setattr', 'delattr', 'vars') \
